@@ -104,7 +104,7 @@ pub struct Cfg {
     pub vault_a: u8,
     pub take: u8,    // 0 inactive(50%), 1 active 0, 2 1e-18, 3 1%, 4 50%, 5 1-1e-18
     pub routes: u8,  // 0 both, 1 none, 2 only A, 3 only B
-    pub fault: u8,   // 0 none, 1 pair A swaps disabled, 2 A hop exceeds max spread, 3 B hop exceeds max spread (asset only the pools' aggregation step handles)
+    pub fault: u8,   // 0 none, 1 pair A swaps disabled, 2 A hop exceeds max spread, 3 B hop exceeds max spread (asset only the pools' aggregation step handles), 4 no fault but 1e21 uwhale in the collector
 }
 
 pub fn all_cfgs() -> Vec<Cfg> {
@@ -115,7 +115,7 @@ pub fn all_cfgs() -> Vec<Cfg> {
                 for vault_a in 0..3 {
                     for take in 0..6 {
                         for routes in 0..4 {
-                            for fault in 0..4 {
+                            for fault in 0..5 {
                                 v.push(Cfg { pair_a, pair_b, vault_w, vault_a, take, routes, fault });
                             }
                         }
@@ -250,6 +250,11 @@ pub fn run_cfg(w: &mut World, bs: &Base, c: &Cfg, cx: &mut Cx) {
             // a USDC balance in the collector larger than the pool can absorb within 50% spread
             w.exec_cosmos(MALLORY, BankMsg::Send { to_address: hub.collector.clone(), amount: vec![coin(5_000_000_000, USDC)] }.into()).unwrap();
         }
+        4 => {
+            // not a fault: a distribution-asset balance in the collector beyond 2^128 / 10^18 base units (about 340 whole
+            // tokens of an 18-decimals asset), where fixed-point conversions of the balance stop fitting
+            w.exec_cosmos(MALLORY, BankMsg::Send { to_address: hub.collector.clone(), amount: vec![coin(1_012_000_000_000_000_000_000, WHALE)] }.into()).unwrap();
+        }
         3 => {
             // the same for the cw20 asset, which no vault holds: its swap belongs to the pools' aggregation step
             w.exec(MALLORY, &bs.tok_b, &cw20::Cw20ExecuteMsg::Transfer { recipient: hub.collector.clone(), amount: Uint128::new(5_000_000_000) }, &[]).unwrap();
@@ -381,7 +386,7 @@ pub fn run(tier: &str, seed: u64) -> i32 {
     let n = cfgs.len();
     ev.add_grid_result(
         "pipeline-configurations",
-        "full product: pair A/B fee state {0,<1000,>1000 both sides,mixed}^2 x vault W/A fee state {0,500,5000}^2 x take rate {inactive,0,1e-18,1%,50%,1-1e-18} x routes {both,none,A,B} x fault {none, pair A swaps disabled, A hop exceeds max spread, B hop exceeds max spread}",
+        "full product: pair A/B fee state {0,<1000,>1000 both sides,mixed}^2 x vault W/A fee state {0,500,5000}^2 x take rate {inactive,0,1e-18,1%,50%,1-1e-18} x routes {both,none,A,B} x fault {none, pair A swaps disabled, A hop exceeds max spread, B hop exceeds max spread, none with a 1e21 balance}",
         res,
         &|i| cfg_json(&cfgs[i]),
         &[0, n / 3, n / 2, n - 1],
